@@ -12,28 +12,32 @@ CLAIMS = {
              "step consumes exactly the supplied path on its own [t0,t1]; first-order consistency (collapsed drift and "
              "diffusion weight 1) of all ten step bodies as a polynomial identity in opaque f, g; Roessler's order "
              "conditions for the tableaus actually imported; advertised strong_order <= literature order per "
-             "(solver, noise type). The limit dt->0 itself is not decided. Derivative-free Milstein: finite difference at one time, and no O(h^1.5) bias per step (second-order weight of the difference quotient times E[v] vanishes). R02.6: for a generic scalar SDE the two local-error hypotheses of Milstein's fundamental theorem (mean-square local error O(h^(p+1/2)), mean local error O(h^(p+1))) hold at the advertised p for every (solver, noise type, option) scenario, by symbolic stochastic Taylor expansion of the step body.",
+             "(solver, noise type). The limit dt->0 itself is not decided. Derivative-free Milstein: finite difference at one time, and no O(h^1.5) bias per step (second-order weight of the difference quotient times E[v] vanishes). R02.6: for a generic scalar SDE the two local-error hypotheses of Milstein's fundamental theorem (mean-square local error O(h^(p+1/2)), mean local error O(h^(p+1))) hold at the advertised p for every (solver, noise type, option) scenario, by symbolic stochastic Taylor expansion of the step body."
+             " Every step of a solve is the analysed step (hidden-state probe R13.4: a second step on the same solver object equals a first step); the solver is constructed with the caller's Brownian object itself (R01.6); emitting an output leaves the loop state alone (R12.4, state clauses only).",
         note="Partial: necessary conditions in general; for scalar SDEs with smooth Lipschitz coefficients R02.6 establishes the hypotheses of the convergence theorem (the theorem itself is cited, not mechanised). All of this concerns grid states: an output time strictly inside a step is the linear interpolant C12 prescribes, whose error is of order sqrt(dt) whatever the solver (reproduced; DESIGN 10.9 observation (x)) -- no check decides or reports that. " + TRUSTED),
     "C02": dict(
         technique="ast formula canonicalisation against textbook formulas; exact rational tableau arithmetic",
         text="Euler and derivative-based Milstein steps equal their textbook formulas as polynomial identities in "
              "opaque F, G, GDG atoms (the property states this equality verbatim); Ito/Stratonovich v-term; weight-1 "
              "Stratonovich condition sum v_i c_i = 1/2 for every RK-type step and derivative-free Milstein; SRK "
-             "scheme form and 25 SRI / 8 SRA order conditions in exact rationals. Milstein operator is one Jacobian-vector product per diffusion column (a transposed product only for diagonal noise); derivative-free Milstein carries no O(h^1.5) bias. R02.6: for a generic scalar SDE (d = m = 1, derivatives of f and g symbolic) every step is expanded in (h, dW, U) and agrees with the Ito / Stratonovich Taylor expansion, built from the operators L0, L1, identically up to weight p and in expectation at weight p + 1/2, p the advertised strong order (the property's own two clauses).",
+             "scheme form and 25 SRI / 8 SRA order conditions in exact rationals. Milstein operator is one Jacobian-vector product per diffusion column (a transposed product only for diagonal noise); derivative-free Milstein carries no O(h^1.5) bias. R02.6: for a generic scalar SDE (d = m = 1, derivatives of f and g symbolic) every step is expanded in (h, dW, U) and agrees with the Ito / Stratonovich Taylor expansion, built from the operators L0, L1, identically up to weight p and in expectation at weight p + 1/2, p the advertised strong order (the property's own two clauses)."
+             ' The expansion is matched by every step, not only the first one of a solver object (R13.4).',
         note="Partial: the Taylor comparison is decided for scalar SDEs; multi-dimensional non-commutative terms are covered only by the structural rules. " + TRUSTED),
     "C03": dict(
         technique="ast formula canonicalisation: Chen identities of the split and of the aggregation loop",
         text="Polynomial identities extracted from the source: children of a split sum to the parent (W additivity, "
              "Chen for H) in both arms; the multi-piece aggregation updates of W, H, A are Chen's relation; update "
              "order (H and A use the loop-carried W); antisymmetry of A; H->U with the query length; zero-length arm "
-             "returns fresh zeros; wrappers use an admissible (time map, output map) pair. Tree search cuts every query exactly (integer and near-coincident orderings); zero-length results have the shapes of ordinary ones; split identities also in dyadic mode.",
+             "returns fresh zeros; wrappers use an admissible (time map, output map) pair. Tree search cuts every query exactly (integer and near-coincident orderings); zero-length results have the shapes of ordinary ones; split identities also in dyadic mode."
+             " Replay of the real tree (exact rational times, symbolic unit normals, nothing mocked): W additivity and Chen's relation for U over triples asked in any order after forward-backward, adaptive-looking and dyadic histories, for cache sizes 0..unbounded, dt hints, plain and dyadic trees; zero-length queries (R03.9). The zero-length shortcut is taken only when the resolved end points coincide, also for queries one tolerance cell long (R03.2 at tolerance scales).",
         note="Partial: values after arbitrary histories rely on C05's structural rules; floating-point tolerance not "
              "decided. " + TRUSTED),
     "C04": dict(
         technique="ast formula canonicalisation with Gaussian bookkeeping (exact covariance of the split)",
         text="Exact covariance matrix of (W_L,H_L,W_R,H_R) computed from the extracted coefficients equals "
              "diag(l, l/12, r, r/12) identically in l, r; top-level scalings; seed separation of the noises; Davie / "
-             "Foster conditional mean and residual variance equal the prescribed formulas; noise at full shape. Split covariance also in dyadic mode with a rounded midpoint; aggregated Levy area has regression slope 1; quantisation grid no coarser than tol; 64-bit seeds. The generator that consumes a node seed uses all 64 bits of it (torch's CPU generator keeps 32; modelling fact).",
+             "Foster conditional mean and residual variance equal the prescribed formulas; noise at full shape. Split covariance also in dyadic mode with a rounded midpoint; aggregated Levy area has regression slope 1; quantisation grid no coarser than tol; 64-bit seeds. The generator that consumes a node seed uses all 64 bits of it (torch's CPU generator keeps 32; modelling fact)."
+             " Replay: the joint covariance of (W, U) over overlapping, nested and disjoint intervals after arbitrary histories equals, entry by entry in exact rationals, that of Brownian motion and its time integral computed from the definition (R04.10); the root's variance is the length of the node it covers, also with a tolerance (R04.2); a node's seeds are consumed by one split only (R05.2).",
         note="Partial: the joint law over arbitrary interval sets follows from the split law by the Levy construction "
              "argument, which is on paper. " + TRUSTED),
     "C05": dict(
@@ -41,40 +45,46 @@ CLAIMS = {
         text="For every path of the Brownian package: node slots are written only by construction/split; only leaves "
              "are split; value functions read only write-once slots, parameters and the memo cache; every RNG call is "
              "seeded from a slot; no in-place operation on a tensor that may alias the cache; cache keyed by node "
-             "identity.",
+             "identity."
+             ' Replay: every interval asked more than once in (history, probes, history backwards, probes) returns its first answer, for four histories x cache sizes x dt hints x tree modes (R05.8).',
         note="Assumes (read, not decided) that the interval decomposition does not depend on the search start. "
              + TRUSTED),
     "C06": dict(
         technique="explicit-flow taint (seed provenance, dyadic non-interference), quantisation typestate",
         text="Seeds are functions of (entropy, tree position, pool size) only; in dyadic mode the requested point has "
              "no explicit flow into the split point; every stored/compared time is quantised; history-dependent "
-             "refinement is disabled in dyadic mode; BrownianTree forwards entropy/tol/pool_size/halfway_tree. Seeds at the point of use are the same whichever sibling's noise is requested first (SeedSequence.spawn modelled as stateful).",
+             "refinement is disabled in dyadic mode; BrownianTree forwards entropy/tol/pool_size/halfway_tree. Seeds at the point of use are the same whichever sibling's noise is requested first (SeedSequence.spawn modelled as stateful)."
+             ' Replay: equal (entropy, options, query sequence) give equal answers, also for an object built in a process where other Brownian objects were used; dyadic mode is independent of the history; another entropy changes the path (R06.10). No state shared between objects (R06.9).',
         note="Partial: 'different entropies give different paths' is statistical and not decided. " + TRUSTED),
     "C07": dict(
         technique="call-graph acyclicity, must-write typestate, interval analysis, small-model path enumeration",
         text="Bounded stack for every query history (acyclic stack-edge call graph with trampolined edges excluded), "
              "no AttributeError from split-only slots (typestate), strictly positive refinement bound (interval "
              "analysis), cache never above cache_size (path enumeration over a small model), sub-tolerance queries "
-             "short-circuited on quantised times, default Brownian motion spans the horizon. Every split request is dominated by a strict order on quantised values (no zero-length child, no child equal to its parent). _LRUDict driven through its own methods on a small model (bounds 1..8, three insertion patterns); statistics-driven refinement of the dependency tree is bounded by the query history (never by the length of one query).",
+             "short-circuited on quantised times, default Brownian motion spans the horizon. Every split request is dominated by a strict order on quantised values (no zero-length child, no child equal to its parent). _LRUDict driven through its own methods on a small model (bounds 1..8, three insertion patterns); statistics-driven refinement of the dependency tree is bounded by the query history (never by the length of one query)."
+             ' The dyadic descent terminates when the quantised midpoint of a node falls on one of its end points (adversarial quantiser, R07.8); every operation applied to the cache is provided by every cache class the constructor may install (R07.4 protocol).',
         note="Termination of the trampolined search loops is not decided in general. " + TRUSTED),
     "C08": dict(
         technique="gradient-flow taint over def-use chains; create_graph / no_grad discipline at autograd sites",
         text="No gradient-severing operation lies on a def-use path from step inputs to the returned state on the "
              "forward value path; every internal autograd call keeps the graph when grad is enabled; no_grad confined "
-             "to step-size control.",
+             "to step-size control."
+             " The entry points make their solver calls in the caller's autograd mode (R09.8).",
         note="The numerical value of gradients is not decided. " + TRUSTED),
     "C09": dict(
         technique="sibling cross-check of sdeint / sdeint_adjoint; autograd.Function arity and index-set analysis",
         text="sdeint_adjoint builds the same solver with the same arguments and calls the same integrate; "
              "autograd.Function argument/None arity and saved-tensor layout agree; the backward sweep covers every "
              "output interval and injects every output cotangent exactly once with reflected times; default adjoint "
-             "table total and valid. Backward sweep for all-nonzero and trailing-zero cotangents; Function.apply arguments bound by role (compared by value); differentiated forward values are computed with a graph. No SDE evaluation that reaches the adjoint Function as a tensor input is made outside it (one known finding: the initial extra state of reversible Heun).",
+             "table total and valid. Backward sweep for all-nonzero and trailing-zero cotangents; Function.apply arguments bound by role (compared by value); differentiated forward values are computed with a graph. No SDE evaluation that reaches the adjoint Function as a tensor input is made outside it (one known finding: the initial extra state of reversible Heun)."
+             " The entry points make their solver calls in the caller's autograd mode, whether or not y0 requires grad (R09.8).",
         note="Partial: convergence of adjoint gradients as dt->0 is not decided. " + TRUSTED),
     "C10": dict(
         technique="ast formula canonicalisation: algebraic inverse and transpose of the reversible Heun step",
         text="AdjointReversibleHeun.step reconstructs the forward step exactly (polynomial identity in opaque f, g) "
              "and its cotangent updates are the transpose of the forward step's linear map; extras are saved for "
-             "backward exactly for this method pair. The backward sweep starts at ts[-1] whenever extras were saved; no left-over step of rounding-error length (exact-rational model of the last steps); time axis in the state's dtype.",
+             "backward exactly for this method pair. The backward sweep starts at ts[-1] whenever extras were saved; no left-over step of rounding-error length (exact-rational model of the last steps); time axis in the state's dtype."
+             ' Forward and backward solves query the Brownian motion on the same intervals as floating-point expressions of (ts, dt) (R10.7; known finding: the two grids are anchored at opposite ends, a non-dyadic dt gives 1e-8). R09.8 as for C09.',
         note="Partial: the 1e-9 figure is floating point and not decided. " + TRUSTED),
     "C11": dict(
         technique="call-site lint over all autograd / forward-SDE calls of AdjointSDE; dispatch-table totality",
@@ -86,29 +96,34 @@ CLAIMS = {
         technique="explicit-flow non-interference of output times; formula identity of the interpolant",
         text="Output times never flow into step arguments or the step size; next_t = min(curr_t + dt, ts[-1]); ys[0] "
              "is y0; linear_interp is the linear interpolant (polynomial identity) applied to the last two grid "
-             "states; list ts normalised to y0's dtype/device. Implicit flows of the output time through branches; exact-rational model of the last steps (a genuine remainder stays a clipped step); float-exact reduction of the interpolation formula at its end points.",
+             "states; list ts normalised to y0's dtype/device. Implicit flows of the output time through branches; exact-rational model of the last steps (a genuine remainder stays a clipped step); float-exact reduction of the interpolation formula at its end points."
+             ' A list ts is followed through every dtype conversion of the validation phase (R12.5, semantic); every path through the output stage is the linear interpolant and leaves the loop state alone (R12.4); a pass of the stepping loop advances the clock or raises (R12.9).',
         note="Bit-level equality is not decided. " + TRUSTED),
     "C13": dict(
         technique="effect analysis: no hidden state outside constructors; extra-state plumbing",
         text="No attribute/global store in any step, integrate, init_extra_solver_state or SDE-wrapper method other "
-             "than __init__; integrate returns the carried extra; sdeint uses extra_solver_state verbatim. The value reported at a step end is the solver's state bit for bit (float-exact reduction); fixed-step arguments depend only on the restartable state. The reported outputs are the loop states themselves (list + stack, or an output tensor without a fixed dtype).",
+             "than __init__; integrate returns the carried extra; sdeint uses extra_solver_state verbatim. The value reported at a step end is the solver's state bit for bit (float-exact reduction); fixed-step arguments depend only on the restartable state. The reported outputs are the loop states themselves (list + stack, or an output tensor without a fixed dtype)."
+             ' The end-of-call guard absorbs only a remainder of rounding-error size, also far from the origin (R13.7, last-steps model).',
         note="Bit identity across chunks additionally needs C05 and float reasoning. " + TRUSTED),
     "C14": dict(
         technique="control-dependence + truth-table of the accept predicate; interval analysis of the controller",
         text="Accept is control-dependent on exactly 'err <= 1 or h <= dt_min' (truth table over 3x3 regions); error "
              "compares the full step with two chained half steps; accepted state is the two-half-step state; a "
-             "rejected step strictly shrinks (factor in [0.2, 0.94)); clamp to dt_min; estimate bounded away from 0. The controller scales the length of the trial actually taken; trial intervals are never stretched beyond the controller's step (exact-rational models). The first trial is max(dt, dt_min) long; last-steps models also far from the origin of time.",
+             "rejected step strictly shrinks (factor in [0.2, 0.94)); clamp to dt_min; estimate bounded away from 0. The controller scales the length of the trial actually taken; trial intervals are never stretched beyond the controller's step (exact-rational models). The first trial is max(dt, dt_min) long; last-steps models also far from the origin of time."
+             ' A pass whose trial step cannot advance the clock raises (R14.8); nothing of the controller is kept on the solver between integrate calls (R13.1).',
         note="Partial: 'tightening tolerances reduces the true error' is not decided. " + TRUSTED),
     "C15": dict(
         technique="ast formula canonicalisation: reverse step composed with forward step is the identity",
         text="Running ReversibleHeun.step on the negated, time-reflected SDE with ReverseBrownian's extracted time "
-             "map and negated extras returns the forward inputs, as a polynomial identity in opaque f, g. The reversed solve walks the reflected grid: output times do not move step boundaries, no left-over rounding-size step, time axis in the state's dtype.",
+             "map and negated extras returns the forward inputs, as a polynomial identity in opaque f, g. The reversed solve walks the reflected grid: output times do not move step boundaries, no left-over rounding-size step, time axis in the state's dtype."
+             ' The time quantiser is odd, q(-x) = -q(x) (R15.9); R10.7 as for C10 (known finding).',
         note="Numerical stability of the reverse recursion is not decided. " + TRUSTED),
     "C16": dict(
         technique="finite-domain evaluation of the registration logic over all 32 method subsets",
         text="For each of the 32 subsets of {f,g,f_and_g,g_prod,f_and_g_prod}: every ForwardSDE slot resolves to a "
              "user primitive, a default whose canonical form equals the slot's meaning, or an explicit raise; rename "
-             "tables agree position-wise.",
+             "tables agree position-wise."
+             ' After renaming through check_contract every interface of the resulting SDE evaluates the drift and diffusion the name map designates, also when the class carries combined methods under default names (R16.9); derived operators keep nothing between calls (R13.1).',
         note="Partial: bit identity between variants and values of autograd-derived operators are not decided. "
              + TRUSTED),
     "C17": dict(
@@ -119,14 +134,16 @@ CLAIMS = {
              "step under the general declaration after the embedding rewrite (mat-vec with diag_embed(g) -> element-wise "
              "product; Levy-area term -> 0), as a polynomial identity; prod_diagonal(g, v) == prod_default(diag_embed(g), v) "
              "entry by entry on symbolic tensors; noise-type dependent attributes are never read on the solve path; the "
-             "default Brownian shape is the same under both declarations.",
+             "default Brownian shape is the same under both declarations."
+             ' BaseSDESolver.integrate around the steps is the same function of the steps under every declaration (R17.5).',
         note="Partial: decides these necessary conditions, not the floating-point equality of two runs (element-wise "
              "product vs batched mat-vec round differently); the vanishing of the general Levy-area term for "
              "commutative noise is the property's own premise. " + TRUSTED),
     "C18": dict(
         technique="ast formula canonicalisation of the four logqp integrands; sibling agreement; slicing lint",
         text="The integrand is 1/2 |g^+(f-h)|^2 in all four sibling implementations; f_and_g_X == (f_X, g_X); the "
-             "extra channel has zero diffusion and base functions see only y[:, :-1]; differencing L[i+1]-L[i].",
+             "extra channel has zero diffusion and base functions see only y[:, :-1]; differencing L[i+1]-L[i]."
+             ' Off-grid outputs of the log-ratio channel are linear interpolants (R12.4); with adaptive steps the controller must not see the log-ratio channel (R18.7; known finding).',
         note="Partial: non-negativity as a number and solver accuracy are not decided. " + TRUSTED),
     "C19": dict(
         technique="finite-domain evaluation of dispatch + constructor guards; error-type and dominance lint",
@@ -137,7 +154,8 @@ CLAIMS = {
     "C20": dict(
         technique="shape/axis lint: noise at full sample shape; no batch-axis reduction on the value path",
         text="Noise is drawn at the full sample shape; no reduction without dim or over dim 0, and no batch-collapsing "
-             "broadcast, on the fixed-step value path.",
+             "broadcast, on the fixed-step value path."
+             ' R20.3 also with a single state channel.',
         note="Partial: user SDEs that mix rows are excluded by the property. " + TRUSTED),
 }
 
